@@ -198,6 +198,14 @@ class RF:
                 for k, e in m:
                     if k in mapping:
                         term = term * mapping[k].pow(e)
+                    elif k.startswith(("tan(", "sin(", "cos(", "exp(",
+                                       "log(")) and k.endswith(")") and \
+                            k[k.index("(") + 1:-1] in mapping:
+                        # f(<symbol>) with the symbol replaced: the atom of
+                        # the replaced argument
+                        inner = mapping[k[k.index("(") + 1:-1]].canon()
+                        k2 = f"{k[:k.index('(')]}({inner})"
+                        term = term * RF({((k2, e),): Fraction(1)})
                     elif k.startswith(("{", "tan(", "sin(", "cos(", "exp(",
                                        "log(")) and any(
                                            s in k for s in mapping):
